@@ -98,6 +98,24 @@ func spaces(c *core.Ctx, rng *rand.Rand) []Space {
 		}
 		out = append(out, sp)
 	}
+	// S1c: chains T1 -> T2 -> T3 -> T4 (embedding depth 3) with every mix of value and
+	// pointer embedding, every declaration pattern on the inner types: "reached through a
+	// pointer" has to be inherited step by step along the chain, whatever the root is
+	{
+		sp := Space{Label: "chain4", Mode: "exh", Names: []string{"M"}, Rooted: true, Samples: [][]TypeDecl{}, Nunits: 1,
+			Ifaces: []Iface{named("main", []string{"M"}), anon("main", []string{"M"})}}
+		vp, no := []string{"v", "p"}, []string{"-"}
+		sp.Slots = []Slot{
+			slot([]string{"A"}, mainOnly, [][]string{{"-"}}),
+			slot([]string{"B"}, mainOnly, allDecls(1)),
+			slot([]string{"C"}, mainOnly, allDecls(1)),
+			slot([]string{"D"}, mainOnly, [][]string{{"v"}, {"p"}}),
+		}
+		sp.Slots[0].Embt = [][]string{vp, no, no}
+		sp.Slots[1].Embt = [][]string{vp, no}
+		sp.Slots[2].Embt = [][]string{vp}
+		out = append(out, sp)
+	}
 	// S1b (thorough): four types - chains of depth 3, diamonds, shadowing over three levels
 	if c.Thorough() {
 		sp := Space{Label: "depth4", Mode: "exh", Names: []string{"M"}, Rooted: true, Samples: [][]TypeDecl{}, Nunits: 1,
@@ -336,7 +354,7 @@ func decide(c *core.Ctx, pool *gjs.Pool, p *Params) {
 	c.Set("families", len(tables))
 	c.Set("families_per_space", perSpace)
 	c.Set("exhaustive", exhaustive)
-	c.Set("exhaustive_spaces", "depth, scopes, samename (and two-names in thorough) are enumerated completely inside their bounds; `sampled` is a VERIF_SEED sample of its bound; the identity scenario enumerates all depth-1 expressions and a seeded choice of depth-2 constructor pairs")
+	c.Set("exhaustive_spaces", "depth, chain4, scopes, samename (and depth4, two-names in thorough) are enumerated completely inside their bounds; `sampled` is a VERIF_SEED sample of its bound; the identity scenario enumerates all depth-1 expressions and a seeded choice of depth-2 constructor pairs")
 	c.Set("rule", "TLC enumerates families (named struct types x declared methods/receivers x embedding edges x scopes) of the spaces in c09_params.json; a case = one family with its full tables (assert x2 forms, two type switches, dispatch probes in 9 call forms, == on 5 values per type); distinct = distinct families; non-trivial = every family (each has at least one method or embedding edge probed); evaluations = compared table cells")
 
 	// ---- batches of families
@@ -368,13 +386,21 @@ func decide(c *core.Ctx, pool *gjs.Pool, p *Params) {
 				os.WriteFile(filepath.Join(d, n), []byte(src), 0o644)
 			}
 		}
-		res := pool.RunBoth(c.Scratch, prog, gjs.Opts{}, 5*time.Minute, true, false)
+		res, nto := runBoth(c, pool, prog, 5*time.Minute)
 		if res.BuildErr != nil {
 			if be, ok := res.BuildErr.(*gjs.BuildError); ok && be.Panic {
 				c.Report(core.Case{Keys: []string{"compiler_panic"}, Summary: "compiler internal error on a type-family program: " + be.Error(), Files: prog.ReplayFiles("prog")})
 			} else {
 				c.Infra(fmt.Errorf("gopherjs build failed: %v", res.BuildErr))
 			}
+			return
+		}
+		if nto {
+			c.Infra(fmt.Errorf("the reference toolchain did not finish building a batch program within 3 x 5 minutes (overloaded machine?)"))
+			return
+		}
+		if res.Native.End == "timeout" || res.JS.End == "timeout" {
+			c.Infra(fmt.Errorf("a batch program did not finish within 5 minutes (native end=%s, node end=%s; overloaded machine?)", res.Native.End, res.JS.End))
 			return
 		}
 		if res.NativeErr != "" {
@@ -455,6 +481,47 @@ func decide(c *core.Ctx, pool *gjs.Pool, p *Params) {
 	}
 }
 
+// runBoth is gjs.Pool.RunBoth with one difference: a native build that hits the
+// fixed 5-minute limit of gjs.NativeBuild (seen on an overloaded machine: the
+// batch programs have tens of thousands of lines) is retried, and reported as
+// a timeout - not as a rejection of the program - when it never finishes.
+func runBoth(c *core.Ctx, pool *gjs.Pool, p gjs.Prog, timeout time.Duration) (b gjs.Both, nativeTimeout bool) {
+	dir, err := p.Materialise(c.Scratch)
+	if err != nil {
+		b.BuildErr = err
+		return b, false
+	}
+	b.Dir = dir
+	defer os.RemoveAll(dir)
+	out := filepath.Join(dir, "out.js")
+	if err := pool.Build(dir, out, gjs.Opts{}); err != nil {
+		b.BuildErr = err
+		return b, false
+	}
+	b.JS = gjs.ClassifyNode(gjs.Node(out, timeout, "", nil))
+	bin := filepath.Join(dir, "native.bin")
+	for attempt := 0; ; attempt++ {
+		r := gjs.NativeBuild(dir, bin)
+		if r.TimedOut && attempt < 2 {
+			c.Add("native_build_retries", 1)
+			continue
+		}
+		if r.TimedOut {
+			return b, true
+		}
+		if r.ExitCode != 0 || r.Err != nil {
+			b.NativeErr = r.Out
+			if b.NativeErr == "" {
+				b.NativeErr = fmt.Sprint("native build failed: ", r.Err)
+			}
+			return b, false
+		}
+		break
+	}
+	b.Native = gjs.ClassifyNative(gjs.NativeRun(bin, timeout, nil))
+	return b, false
+}
+
 func firstLines(s string, n int) string {
 	ls := strings.Split(s, "\n")
 	if len(ls) > n {
@@ -529,7 +596,10 @@ type identMismatch struct {
 
 func decideIdent(c *core.Ctx, pool *gjs.Pool, id *Ident, rows []*IRow) (ms []mismatch, cells, discards int, err error) {
 	prog := renderIdent(id, rows)
-	res := pool.RunBoth(c.Scratch, prog, gjs.Opts{}, 5*time.Minute, true, false)
+	res, nto := runBoth(c, pool, prog, 5*time.Minute)
+	if nto {
+		return nil, 0, 0, fmt.Errorf("the reference toolchain did not finish building the identity program within 3 x 5 minutes (overloaded machine?)")
+	}
 	if res.BuildErr != nil {
 		if be, ok := res.BuildErr.(*gjs.BuildError); ok && be.Panic {
 			c.Report(core.Case{Keys: []string{"compiler_panic"}, Summary: "compiler internal error on the type-identity program: " + be.Error(), Files: prog.ReplayFiles("prog")})
